@@ -192,12 +192,48 @@ func runC15(c *core.Ctx) core.Meta {
 			}
 		}
 	}
-	if len(capPred) == 0 {
-		c.Report(core.Finding{Rule: "R15.3", Kind: "anchor", Pkg: robPkg, Func: "-", Detail: "capacity-predicate", Msg: "no function returning a comparison of transactions.Len() with bufferSize found"})
+	// the same comparison used directly as a branch condition
+	directCap := CmpCut(func(_ *core.Node, op token.Token, x, y ssa.Value) int {
+		px, py := prov.Of(x), prov.Of(y)
+		if px == "recv.transactions.Len()" && py == "recv.bufferSize" {
+			switch op {
+			case token.GEQ, token.EQL:
+				return -1 // not full on the false edge
+			case token.LSS, token.NEQ:
+				return 1
+			}
+		}
+		if py == "recv.transactions.Len()" && px == "recv.bufferSize" {
+			switch op {
+			case token.LEQ, token.EQL:
+				return -1
+			case token.GTR, token.NEQ:
+				return 1
+			}
+		}
+		return 0
+	})
+	hasDirect := false
+	p.Instrs(func(fn *ssa.Function, in ssa.Instruction) {
+		if bo, ok := in.(*ssa.BinOp); ok && len(capPred) == 0 {
+			px, py := prov.Of(bo.X), prov.Of(bo.Y)
+			if (px == "recv.transactions.Len()" && py == "recv.bufferSize") || (py == "recv.transactions.Len()" && px == "recv.bufferSize") {
+				hasDirect = true
+				st3.Instances++
+				okOp := (px == "recv.transactions.Len()" && (bo.Op == token.GEQ || bo.Op == token.LSS)) || (py == "recv.transactions.Len()" && (bo.Op == token.LEQ || bo.Op == token.GTR))
+				st3.Ob(okOp)
+				if !okOp {
+					c.ReportAt("R15.3", fn, in.Pos(), "capacity-predicate", fmt.Sprintf("capacity test is %s %s %s; anything but Len() >= bufferSize (or its negation) lets the buffer hold more than its capacity", px, bo.Op, py))
+				}
+			}
+		}
+	})
+	if len(capPred) == 0 && !hasDirect {
+		c.Report(core.Finding{Rule: "R15.3", Kind: "anchor", Pkg: robPkg, Func: "-", Detail: "capacity-predicate", Msg: "no comparison of transactions.Len() with bufferSize found"})
 	}
 	n3, ung3 := p.GuardedUp(func(in ssa.Instruction) bool {
 		return isListCall(in, "PushBack", "PushFront", "InsertBefore", "InsertAfter")
-	}, CallFnCut(false, capPred))
+	}, AnyCut(CallFnCut(false, capPred), directCap))
 	st3.Instances += n3
 	for i := 0; i < n3-len(ung3); i++ {
 		st3.Ob(true)
